@@ -114,7 +114,8 @@ vf::Outcome run_case(const vf::Case& c, const vf::RunCtx& ctx) {
     int mode = (int)c.ints[4];
     if (ctx.fuzz && mode == 0) mode = 2;   // single cells only under libFuzzer (short executions)
     if (mode == 0) {
-      for (int N = 3; N <= kMaxN; ++N) for (int d = 2; d <= N; ++d) for (int kk = 1; kk <= 4; ++kk) for (int cl = 0; cl < 2; ++cl)
+      // a sweep stops at its first failing cell (the failure is already recorded; shrinking re-runs the case hundreds of times)
+      for (int N = 3; N <= kMaxN && k.o.st != Outcome::FAIL; ++N) for (int d = 2; d <= N && k.o.st != Outcome::FAIL; ++d) for (int kk = 1; kk <= 4; ++kk) for (int cl = 0; cl < 2; ++cl)
         check_cell(k, s, all, Cell{N, d, kk, cl != 0}, cells, nontriv);
       // the three invalid-argument classes
       check_cell(k, s, all, Cell{2, 2, 1, false}, cells, nontriv);
